@@ -46,6 +46,16 @@ def Clause.name : Clause → String
   | .noLeak => "no_hidden_value_in_result"
   | .sandboxedAtSite => "evaluated_sandboxed_at_call_site"
 
+/-- The attributes the property names outright — "attributes that are hidden from API users, such as passwords and the
+    ticket salt" — PINNED here, not read from the implementation (lib/remote/apiuser.ti:14-15, lib/remote/apilistener.ti:51,
+    lib/db_ido_mysql/idomysqlconnection.ti:24, lib/db_ido_pgsql/idopgsqlconnection.ti:23, lib/icingadb/icingadb.ti:23): an
+    observation of a read of one of them counts as a read of a hidden field whatever flag the implementation reports. -/
+def secretAttrs : List (String × String) :=
+  [("ApiUser", "password"), ("ApiUser", "password_hash"), ("ApiListener", "ticket_salt"),
+   ("IdoMysqlConnection", "password"), ("IdoPgsqlConnection", "password"), ("IcingaDB", "password")]
+
+def isSecretAttr (t f : String) : Bool := secretAttrs.contains (t, f)
+
 /-- First violated clause of one observation, if any. -/
 def specStep (o : Obs) : Option Clause :=
   if o.changed then some .stateUnchanged
